@@ -96,8 +96,17 @@ def conv_bench(name, user_dw, native_dw, mode="both", reverse=False, aw_native=4
             terms.append(stub.inputs["stub_rdata_other"] == 0)
         top.comb += oz.eq(monitors.all_(terms))
         assumes["data_outside_watched_lane_is_zero(data_independence)"] = oz
-    b = bmc.Bench(name, top, inputs, consts=consts, free_init={"mem_byte": mem, "ref_byte": ref},
-                  init_assume=[mem == ref], assumes=assumes, bads=bads, covers=covers,
+    if with_w:
+        fi, ia = {"mem_byte": mem, "ref_byte": ref}, [mem == ref]
+    else:
+        # read-only port: the watched byte never changes, memory contents and reference are one symbolic constant
+        fi, ia = {}, []
+        consts.update({"mem_byte": mem, "ref_byte": ref})
+        same = Signal()
+        top.comb += same.eq(mem == ref)
+        assumes["memory_byte_equals_reference_byte"] = same
+    b = bmc.Bench(name, top, inputs, consts=consts, free_init=fi,
+                  init_assume=ia, assumes=assumes, bads=bads, covers=covers,
                   info=dict(user_dw=user_dw, native_dw=native_dw, mode=mode, reverse=reverse))
     b.watch = {"u_cmd_valid": pu.cmd.valid, "u_cmd_ready": pu.cmd.ready, "u_we": pu.cmd.we, "u_addr": pu.cmd.addr,
                "u_last": pu.cmd.last, "u_flush": pu.flush,
